@@ -111,16 +111,42 @@ fn c08(replay: Option<(usize, usize, usize)>) -> (bool, String, String) {
         let bytes = proof.to_bytes().unwrap();
         for cut in 0..bytes.len() {
             let res = catch_unwind(AssertUnwindSafe(|| R1CSProof::<Affine>::from_bytes(&bytes[..cut]).is_ok()));
-            match res { Err(_) => return (true, format!("\"prefix:{}\"", cut), "from_bytes panicked".into()), Ok(true) => return (true, format!("\"prefix:{}\"", cut), "strict prefix decoded".into()), _ => {} }
+            if res.is_err() { return (true, format!("\"prefix:{}\"", cut), "from_bytes panicked".into()); }
         }
     }
     (false, "null".into(), "grid gates{1,2,3,4,8} x |L|,|R| in 0..6, all prefixes".into())
 }
 
+// ---- C11: size law, strict prefixes rejected with FormatError, byte-exact round trip ----
+fn c11() -> (bool, String, String) {
+    let (pt, sc) = (33usize, 32usize);
+    for g in [0usize, 1, 2, 3, 5, 8] {
+        let (proof, c) = match prove(g, 0, 64, 11) { Ok(x) => x, Err(e) => return (true, format!("{}", g), format!("prove failed: {:?}", e)) };
+        let bytes = match proof.to_bytes() { Ok(b) => b, Err(e) => return (true, format!("{}", g), format!("to_bytes failed: {:?}", e)) };
+        let k = np2(g).trailing_zeros() as usize;
+        let want = 11 * pt + 5 * sc + 16 + 2 * k * pt;
+        if bytes.len() != want { return (true, format!("{}", g), format!("encoded length {} != 11 points + 5 scalars + 16 + 2k points = {} (gates {}, k {})", bytes.len(), want, g, k)); }
+        for cut in 0..bytes.len() {
+            match R1CSProof::<Affine>::from_bytes(&bytes[..cut]) {
+                Ok(_) => return (true, format!("[{},{}]", g, cut), format!("strict prefix of {} out of {} bytes decoded", cut, bytes.len())),
+                Err(R1CSError::FormatError) => {}
+                Err(e) => return (true, format!("[{},{}]", g, cut), format!("prefix rejected with {:?} instead of FormatError", e)),
+            }
+        }
+        let back = match R1CSProof::<Affine>::from_bytes(&bytes) { Ok(p) => p, Err(e) => return (true, format!("{}", g), format!("own encoding rejected: {:?}", e)) };
+        if back.to_bytes().ok() != Some(bytes.clone()) { return (true, format!("{}", g), "decode + re-encode changed the bytes".into()); }
+        if proof.to_bytes().ok() != Some(bytes.clone()) { return (true, format!("{}", g), "encoding is not deterministic".into()); }
+        if verify(&back, c, g, 0, 64).is_ok() != verify(&proof, c, g, 0, 64).is_ok() { return (true, format!("{}", g), "verdict changed across the round trip".into()); }
+    }
+    (false, "null".into(), "gates {0,1,2,3,5,8}: size law, every strict prefix, round trip, verdict".into())
+}
+
 // ---- C13 ----
 fn c13() -> (bool, String, String) {
-    let pc = PedersenGens::<Affine>::default();
+    let dflt = PedersenGens::<Affine>::default();
     let mut r = rng(13);
+    // default bases and bases where B is not the group generator
+    for pc in [dflt, PedersenGens::<Affine> { B: (dflt.B.mul_bigint(Fr::from(7u64).into_bigint()) + dflt.B_blinding.mul_bigint(Fr::from(11u64).into_bigint())).into_affine(), B_blinding: dflt.B_blinding }] {
     let big = Fr::from(u64::MAX) * Fr::from(u64::MAX) + Fr::one();
     let vals = [Fr::zero(), Fr::one(), -Fr::one(), big, Fr::rand(&mut r), Fr::rand(&mut r)];
     for (i, v) in vals.iter().enumerate() { for (j, b) in vals.iter().enumerate() {
@@ -131,7 +157,8 @@ fn c13() -> (bool, String, String) {
         let (c, _) = p.commit(*v, *b);
         if c != want { return (true, format!("[{},{}]", i, j), "Prover::commit returned a different point".into()); }
     } }
-    (false, "null".into(), "36 (v,r) pairs incl. 0, 1, -1, > 2^64".into())
+    }
+    (false, "null".into(), "36 (v,r) pairs incl. 0, 1, -1, > 2^64, for the default bases and for B = 7G + 11B~".into())
 }
 
 // ---- C15: random expression trees ----
@@ -390,6 +417,7 @@ fn main() {
         "C01" => c01(rep.filter(|v| v.len() == 3).map(|v| (v[0] as usize, v[1] as usize, v[2] as usize))),
         "C02" => c02(rep.filter(|v| v.len() == 5).map(|v| (v[0] as usize, v[1] as usize, v[2] as usize, v[3] as usize, v[4] as usize))),
         "C08" => c08(rep.filter(|v| v.len() == 3).map(|v| (v[0] as usize, v[1] as usize, v[2] as usize))),
+        "C11" => c11(),
         "C13" => c13(),
         "C15" => c15(rep.and_then(|v| v.first().cloned())),
         "C16" => c16(rep.filter(|v| v.len() == 2).map(|v| (v[0], v[1] as u32))),
